@@ -6,6 +6,8 @@ and 1; list values are slices seq[lo:hi] or the empty list.
 """
 import ast
 
+from ..engine import argn
+
 from ..core.model import AnchorError
 from ..core.cfg import cfg_of
 from ..core.facts import U
@@ -89,10 +91,10 @@ class Interp:
             return EMPTY
         if isinstance(e, ast.Call) and isinstance(e.func, ast.Name):
             if e.func.id == "len" and len(e.args) == 1:
-                v = self.ev(e.args[0])
+                v = self.ev(argn(e, 0))
                 return v.length() if isinstance(v, Slice) else None
             if e.func.id in ("list", "tuple") and len(e.args) == 1:
-                return self.ev(e.args[0])
+                return self.ev(argn(e, 0))
             if e.func.id == "list" and not e.args:
                 return EMPTY
             return None
